@@ -5,6 +5,7 @@ import (
 	"sort"
 	"strings"
 	"sync/atomic"
+	"time"
 	"unsafe"
 
 	"github.com/cybergarage/go-redis/vrt"
@@ -187,6 +188,67 @@ func selfScenarios() []selfScenario {
 			}
 			mu.Unlock()
 			*obs = append(*obs, "ready")
+		}},
+		{name: "sleep-orders-by-duration", bound: 3, want: []string{"b a"}, body: func(obs *[]string) {
+			var got []string
+			wg := vrt.WaitGroup{}
+			wg.Add(2)
+			vrt.Go("a", func() { vrt.Sleep(2 * time.Second); got = append(got, "a"); wg.Done() })
+			vrt.Go("b", func() { vrt.Sleep(1 * time.Second); got = append(got, "b"); wg.Done() })
+			wg.Wait()
+			*obs = append(*obs, strings.Join(got, " "))
+		}},
+		{name: "select-timeout-fires-when-stuck", bound: 3, want: []string{"timeout after 5s"}, body: func(obs *[]string) {
+			ch := vrt.MakeChan(make(chan int))
+			start := vrt.Now()
+			cr, ct := vrt.RecvCase(ch), vrt.RecvCase(vrt.After(5*time.Second))
+			switch vrt.Select("sel", false, cr, ct) {
+			case 0:
+				*obs = append(*obs, "got")
+			case 1:
+				*obs = append(*obs, fmt.Sprint("timeout after ", vrt.Since(start)))
+			}
+		}},
+		{name: "select-timeout-loses-to-progress", bound: 3, want: []string{"got 7"}, body: func(obs *[]string) {
+			ch := vrt.MakeChan(make(chan int))
+			vrt.Go("sender", func() { vrt.Send(ch, 7, "s") })
+			cr, ct := vrt.RecvCase(ch), vrt.RecvCase(vrt.After(5*time.Second))
+			switch vrt.Select("sel", false, cr, ct) {
+			case 0:
+				*obs = append(*obs, fmt.Sprint("got ", cr.Val()))
+			case 1:
+				*obs = append(*obs, "timeout")
+			}
+		}},
+		{name: "stopped-timer-never-fires", bound: 2, want: []string{"stopped=true fired=false"}, body: func(obs *[]string) {
+			t := vrt.NewTimer(time.Second)
+			stopped := t.Stop()
+			vrt.Sleep(3 * time.Second)
+			c := vrt.RecvCase(t.C)
+			fired := vrt.Select("sel", true, c) == 0
+			*obs = append(*obs, fmt.Sprint("stopped=", stopped, " fired=", fired))
+		}},
+		{name: "afterfunc-runs-as-a-thread", bound: 3, want: []string{"x=1"}, body: func(obs *[]string) {
+			x := 0
+			vrt.AfterFunc(time.Second, func() { x = 1 })
+			vrt.Sleep(2 * time.Second)
+			*obs = append(*obs, fmt.Sprint("x=", x))
+		}},
+		{name: "timer-beyond-horizon", bound: 2, want: []string{"parked"}, body: func(obs *[]string) {
+			vrt.Go("idle", func() { vrt.Recv1(vrt.After(time.Hour), "idle") })
+			vrt.WaitQuiet()
+			*obs = append(*obs, "parked")
+		}},
+		{name: "ticker", bound: 2, want: []string{"ticks=3 elapsed=3s"}, body: func(obs *[]string) {
+			start := vrt.Now()
+			tk := vrt.NewTicker(time.Second)
+			n := 0
+			for n < 3 {
+				vrt.Recv1(tk.C, "tick")
+				n++
+			}
+			tk.Stop()
+			*obs = append(*obs, fmt.Sprint("ticks=", n, " elapsed=", vrt.Since(start)))
 		}},
 		{name: "rendezvous-handoff", bound: 3, want: []string{"x=1 y=2"}, body: func(obs *[]string) {
 			// an unbuffered exchange in both directions: each side continues only
